@@ -69,6 +69,13 @@ LenUpTo(ss, i) == IF i = 0 THEN 0 ELSE LenUpTo(ss, i - 1) + Len(ss[i])
 OffsetsOk == \A i \in 1..Len(offsets) : offsets[i] = LenUpTo(Buffers, i - 1)
 CompleteOk == (next > Len(Buffers) /\ buf = <<>>) => accepted = Stream
 
+\* liveness (write side): if the sink keeps accepting bytes (weak fairness of the accepting steps;
+\* interruptions are finite), every write_all returns and the whole stream gets through; the
+\* accepted stream only ever grows
+WLiveness == WF_wvars(StartWriteAll \/ (\E n \in 1..3 : SinkAccept(n)))
+WTerminates == <>(next > Len(Buffers) /\ buf = <<>> /\ accepted = Stream)
+WMonotone == [][Len(accepted') >= Len(accepted) /\ count' >= count]_wvars
+
 -----------------------------------------------------------------------------
 (* read side *)
 CONSTANTS Data, Wants      \* the source content; the sequence of read_exact sizes
@@ -94,4 +101,9 @@ RNext == StartRead \/ (\E n \in 1..3 : SourceGive(n)) \/ (want > 0 /\ SourceGive
 RSpec == RInit /\ [][RNext]_rvars
 \* every completed read delivered exactly the bytes at its position, whatever the schedule
 ReadsOk == \A i \in 1..Len(results) : results[i] = SubSeq(Data, LenUpToW(i - 1) + 1, LenUpToW(i))
+\* liveness (read side): if the source keeps giving bytes, every read_exact completes
+RLiveness == WF_rvars(StartRead \/ (\E n \in 1..3 : SourceGive(n)))
+RTerminates == <>(want = 0 /\ ri > Len(Wants) /\ Len(results) = Len(Wants))
+RMonotone == [][pos' >= pos]_rvars
+
 =============================================================================
